@@ -561,6 +561,10 @@ func c18AirReinit(c *Ctx, A *Cluster, tag string, victim int) int {
 				continue
 			}
 			class, detail := p.feed(bad)
+			stored := false
+			if krs, err := p.am.GetBLSKeyrings(); err == nil && krs[B.Round] != nil {
+				stored = true
+			}
 			p.am.VerifClose()
 			before, after := dbSnapshot(filepath.Join(B.MDirs[victim], "db")), dbSnapshot(filepath.Join(dir, "db"))
 			os.RemoveAll(dir)
@@ -572,7 +576,25 @@ func c18AirReinit(c *Ctx, A *Cluster, tag string, victim int) int {
 				c.Fail(Failure{Property: "C18", Kind: "rejected-operation-changed-database", Signature: map[string]interface{}{"kind": "rejected-operation-changed-database", "operation": "reinit_dkg", "mutation": mu.label},
 					What: "a rejected reinit_dkg operation file (" + mu.label + ") changed the machine's database", Replay: rep})
 			}
-			c.Case("air-reinit-"+class, false, "skip "+class, "skip "+class)
+			// the model (Air/Reinit.v): the embedded operations name round 7, the file names round 8
+			var inner []ctypes.Operation
+			json.Unmarshal(o.Payload, &inner)
+			var desc []string
+			for _, io := range inner {
+				kind := map[string]string{opCommits: "commits", opDeals: "deals", opResponses: "responses", opMaster: "master"}[string(io.Type)]
+				if kind == "" || !io.Event.IsEmpty() {
+					continue // not carried out by the handler (an invitation, an operation that has its answer)
+				}
+				desc = append(desc, kind+" 7 1")
+			}
+			obs := "airreinit refused shares="
+			if class == "ok" {
+				obs = "airreinit processed shares="
+			}
+			if stored {
+				obs += "7"
+			}
+			c.Case("air-reinit-"+class, true, fmt.Sprintf("airreinit 8 %d %s", len(desc), strings.Join(desc, " ")), obs)
 		}
 		B.Machines[victim] = reopen(B, victim)
 		_, err := B.Answer(i, o)
